@@ -64,7 +64,7 @@ VPCheck(a, raw) ==     \* "" when accepted, otherwise the error kind
     [] vp.k = "bool" -> IF BoolParse(raw).k = "Ok" THEN "" ELSE BoolParse(raw).k
     [] vp.k = "u8" -> LET r == RangedParse("u8", [lk |-> "unb", lo |-> SmallNum(0), hk |-> "unb", hi |-> SmallNum(0)], raw) IN IF r.k = "Ok" THEN "" ELSE r.k
     [] vp.k = "int" -> LET r == RangedParse("i64", [lk |-> "inc", lo |-> SmallNum(vp.lo), hk |-> "inc", hi |-> SmallNum(vp.hi)], raw) IN IF r.k = "Ok" THEN "" ELSE r.k
-    [] vp.k = "possible" -> LET r == PossibleParse([i \in 1..Len(vp.pvs) |-> [name |-> vp.pvs[i], aliases |-> {}, hide |-> FALSE]], a.ignore_case, raw) IN IF r.k = "Ok" THEN "" ELSE r.k
+    [] vp.k = "possible" -> LET r == PossibleParse([i \in 1..Len(vp.pvs) |-> [name |-> vp.pvs[i], aliases |-> SeqToSet(vp.pv_aliases[i]), hide |-> FALSE]], a.ignore_case, raw) IN IF r.k = "Ok" THEN "" ELSE r.k
     [] vp.k = "boolish" -> IF BoolishParse(raw).k = "Ok" THEN "" ELSE BoolishParse(raw).k
     [] vp.k = "falsey" -> IF FalseyParse(raw).k = "Ok" THEN "" ELSE FalseyParse(raw).k
     [] vp.k = "nonempty" -> IF NonEmptyParse(raw).k = "Ok" THEN "" ELSE NonEmptyParse(raw).k
